@@ -23,7 +23,7 @@ def job_decode(variant, seed=0, timeout_s=10.0):
                   timeout_s=timeout_s, seed=seed, gen_concrete=I.decode_gen)
 
 
-E2_CLASSES = ["contracts.C16_dist:DistRegular", "contracts.C16_dist:DistZeros", "contracts.C16_dist:EnsembleLayout", "contracts.C16_dist:ValidateProbDist", "contracts.C16_dist:EnsembleTensorProduct"]
+E2_CLASSES = ["contracts.C16_dist:DistRegular", "contracts.C16_dist:DistZeros", "contracts.C16_dist:EnsembleLayout", "contracts.C16_dist:ValidateProbDist", "contracts.C16_dist:EnsembleTensorProduct", "contracts.C16_dist:LegacyProbDist", "contracts.C16_dist:JointWithImpossibleOutcomeUnderC16"]
 
 
 def jobs(tier, seed):
